@@ -80,6 +80,10 @@ def source_variants():
     except Exception:  # noqa: BLE001
         out["json"] = "v0"
     try:
+        out["edge_name"] = "fixed" if cogent3.make_tree("(edge,b);").get_tip_names() == ["edge", "b"] else "v0"
+    except Exception:  # noqa: BLE001
+        out["edge_name"] = "v0"
+    try:
         r = cogent3.make_tree("(',',b);")
         out["labels"] = "fixed" if r.get_tip_names() == [",", "b"] else "v0"
     except Exception:  # noqa: BLE001
